@@ -573,6 +573,7 @@ func chunkHead(p *core.Prog, r *core.Result, pk string) {
 		}
 	}
 	r.Stats["chunk_head_sites_"+pk] = total
+	feedNonEmpty(p, r, fam, pk)
 }
 
 // nonEmptyAt: blk is dominated by an edge on which len(v) != 0.
@@ -748,4 +749,219 @@ func maskPremise(p *core.Prog, fam *parserFamily, f *ssa.Function, m, v int64) s
 		return "state cap hit"
 	}
 	return k.bad
+}
+
+// ---- FEED-NONEMPTY ----
+//
+// When the dispatcher itself hands its chunk to a head-reading step without an
+// emptiness test (cborl, ubjson), every caller of the dispatcher has to pass a
+// non-empty chunk: feed() loops while len(b) > 0; the pull decoders pass their
+// window field, which must be known non-empty on the path - either tested
+// (len(dec.buffer) != 0) or just refilled with buffer0[:n] and n tested != 0.
+
+type fnState struct {
+	nonEmpty stringSet   // field keys known to hold a non-empty slice
+	high     map[string]int // field key -> value id of n after field = x[:n]
+	nz       valueSet    // ints known != 0
+}
+type fnClient struct {
+	p      *core.Prog
+	fn     *ssa.Function
+	target *ssa.Function
+	argIdx int
+	num    *valueNumbering
+	bad    string
+	calls  int
+}
+
+func (k *fnClient) Key(s fnState) string {
+	var hs []string
+	for f, id := range s.high {
+		hs = append(hs, fmt.Sprintf("%s=%d", f, id))
+	}
+	sort.Strings(hs)
+	return s.nonEmpty.key() + "|" + strings.Join(hs, ",") + "|" + s.nz.key()
+}
+func (k *fnClient) Phis(s fnState, _ *ssa.BasicBlock, _ int) fnState { return s }
+func (k *fnClient) Return(fnState, *ssa.Return)                     {}
+func (k *fnClient) Instr(s fnState, in ssa.Instruction) (fnState, bool, []fnState) {
+	switch x := in.(type) {
+	case *ssa.Store:
+		ak := addrKey(x.Addr)
+		if ak == "" || !isByteSlice(x.Val.Type()) {
+			break
+		}
+		s.nonEmpty = s.nonEmpty.without(ak)
+		nh := map[string]int{}
+		for f, id := range s.high {
+			if f != ak {
+				nh[f] = id
+			}
+		}
+		if sl, ok := x.Val.(*ssa.Slice); ok && sl.High != nil && (sl.Low == nil || isIntConst(sl.Low, 0)) {
+			id := k.num.id(sl.High)
+			if s.nz.has(id) {
+				s.nonEmpty = s.nonEmpty.with(ak)
+			} else {
+				nh[ak] = id
+			}
+		}
+		s.high = nh
+	case *ssa.Call:
+		if x.Common().StaticCallee() != k.target {
+			break
+		}
+		k.calls++
+		arg := x.Common().Args[k.argIdx]
+		ok := false
+		if ld, isLd := arg.(*ssa.UnOp); isLd && ld.Op == token.MUL {
+			if ak := addrKey(ld.X); ak != "" && s.nonEmpty.has(ak) {
+				ok = true
+			}
+		}
+		if sl, isSl := arg.(*ssa.Slice); isSl && sl.High != nil && (sl.Low == nil || isIntConst(sl.Low, 0)) && s.nz.has(k.num.id(sl.High)) {
+			ok = true
+		}
+		if nonEmptyAt(arg, x.Block()) || nonEmptyByLoop(arg, x.Block()) {
+			ok = true
+		}
+		if !ok {
+			k.bad = "calls " + core.FuncKey(k.target) + " at " + k.p.Pos(x.Pos()) + " with a chunk that is not known to be non-empty on some path"
+		}
+	}
+	return s, true, nil
+}
+func (k *fnClient) Branch(s fnState, cond ssa.Value, outcome bool) (fnState, bool) {
+	for {
+		u, ok := cond.(*ssa.UnOp)
+		if !ok || u.Op != token.NOT {
+			break
+		}
+		cond, outcome = u.X, !outcome
+	}
+	bo, ok := cond.(*ssa.BinOp)
+	if !ok || !isIntConst(bo.Y, 0) {
+		return s, true
+	}
+	var nonZero, known bool
+	switch bo.Op {
+	case token.EQL, token.LEQ:
+		nonZero, known = !outcome, true
+	case token.NEQ, token.GTR:
+		nonZero, known = outcome, true
+	}
+	if !known {
+		return s, true
+	}
+	// len(field) ?
+	if call, ok := bo.X.(*ssa.Call); ok {
+		if bi, ok := call.Common().Value.(*ssa.Builtin); ok && bi.Name() == "len" {
+			if ld, ok := call.Common().Args[0].(*ssa.UnOp); ok && ld.Op == token.MUL {
+				if ak := addrKey(ld.X); ak != "" {
+					if nonZero {
+						s.nonEmpty = s.nonEmpty.with(ak)
+					} else {
+						s.nonEmpty = s.nonEmpty.without(ak)
+					}
+				}
+			}
+			return s, true
+		}
+	}
+	// n ?
+	if nonZero && bo.Op != token.LEQ && bo.Op != token.GTR || nonZero {
+		id := k.num.id(bo.X)
+		s.nz = s.nz.with(id)
+		for f, hid := range s.high {
+			if hid == id {
+				s.nonEmpty = s.nonEmpty.with(f)
+			}
+		}
+	}
+	return s, true
+}
+
+func feedNonEmpty(p *core.Prog, r *core.Result, fam *parserFamily, pk string) {
+	fu := fam.feedUntil
+	sf := fam.steps[fu]
+	var chunk ssa.Value
+	argIdx := -1
+	if sf != nil {
+		chunk = sf.chunk
+	} else {
+		for _, prm := range fu.Params {
+			if isByteSlice(prm.Type()) {
+				chunk = prm
+			}
+		}
+	}
+	for i, prm := range fu.Params {
+		if ssa.Value(prm) == chunk {
+			argIdx = i
+		}
+	}
+	if chunk == nil || argIdx < 0 {
+		return
+	}
+	// does the dispatcher hand its chunk on without a test?
+	needs := false
+	for _, b := range fu.Blocks {
+		for _, in := range b.Instrs {
+			c, ok := in.(*ssa.Call)
+			if !ok || c.Common().StaticCallee() == nil {
+				continue
+			}
+			if _, isStep := fam.steps[c.Common().StaticCallee()]; !isStep {
+				continue
+			}
+			for _, a := range c.Common().Args {
+				isChunk := a == chunk
+				if phi, ok := a.(*ssa.Phi); ok {
+					for _, e := range phi.Edges {
+						if e == chunk {
+							isChunk = true
+						}
+					}
+				}
+				if isChunk && !nonEmptyAt(a, b) && !nonEmptyByLoop(a, b) {
+					needs = true
+				}
+			}
+		}
+	}
+	if !needs {
+		r.Ok(".FEED-NONEMPTY", p.Pos(fu.Pos()), core.FuncKey(fu)+": tests its chunk before the first step, callers may pass an empty chunk")
+		return
+	}
+	n := 0
+	for _, g := range p.ModFuncs() {
+		gp := core.FuncPkg(g)
+		if gp == nil || gp.Name() != pk || g == fu {
+			continue
+		}
+		calls := false
+		for _, b := range g.Blocks {
+			for _, in := range b.Instrs {
+				if c, ok := in.(*ssa.Call); ok && c.Common().StaticCallee() == fu {
+					calls = true
+				}
+			}
+		}
+		if !calls {
+			continue
+		}
+		n++
+		k := &fnClient{p: p, fn: g, target: fu, argIdx: argIdx, num: newNumbering()}
+		_, capped := WalkPaths[fnState](k, g.Blocks[0], 0, fnState{high: map[string]int{}}, 200000, nil)
+		gkey := core.FuncKey(g)
+		switch {
+		case capped:
+			r.Undecided(".FEED-NONEMPTY", gkey, "state cap hit")
+		case k.bad != "":
+			r.Fail(".FEED-NONEMPTY", gkey+"|feed", p.Pos(g.Pos()), gkey+" "+k.bad+": the dispatcher hands its chunk to a step that reads b[0] without a test, so an empty chunk (a reader returning 0 bytes without error) indexes out of range or is misparsed", "")
+		default:
+			r.Ok(".FEED-NONEMPTY", p.Pos(g.Pos()), gkey+": the dispatcher is only fed chunks known to be non-empty")
+		}
+	}
+	r.Stats["dispatcher_callers_"+pk] = n
 }
